@@ -65,5 +65,16 @@ func genC12(r *rand.Rand, tier string) []interface{} {
 		in.Items = wsify(items)
 		out = append(out, in)
 	}
+	// the server closes the websocket right behind a burst: the client is still reading when the close arrives;
+	// every element sent before it was completely received and is still routed, the loss reported once
+	for i := 0; i < nws; i++ {
+		in := recvIn{Cut: -1, WS: true, PeerCloseNow: true, SM: i%2 == 0}
+		for _, it := range wsify(genItems(r, 120+r.Intn(120), false, false)) {
+			if it.T != "r" {
+				in.Items = append(in.Items, it)
+			}
+		}
+		out = append(out, in)
+	}
 	return out
 }
